@@ -18,6 +18,7 @@ const (
 	YHost    = 6 // entry of a harness host function
 	YOpStart = 7 // client operation about to be invoked
 	YOpEnd   = 8 // client operation returned
+	YChan    = 14 // about to attempt a channel operation
 	EvSwitch = 9
 	EvBlock  = 10
 	EvGrant  = 11
@@ -41,7 +42,8 @@ const maxTasks = 8
 type Task struct {
 	gate   uint32
 	ID     int
-	state  int // 0 runnable, 1 blocked, 2 done, 3 not started
+	state  int // 0 runnable, 1 blocked on a mutex, 2 done, 4 waiting for a channel operation to become possible
+	stamp  uint64
 	waitOn unsafe.Pointer
 	prio   int
 	fn     func()
@@ -72,6 +74,8 @@ type Sched struct {
 
 	Steps    int
 	Switches int
+	progress uint64 // bumped by every step of every task: a task polling a channel is retried only after somebody else moved
+	ChanWaits int
 	StepCap  int
 	Aborted  bool // step cap hit: contexts report cancellation from now on
 
@@ -217,6 +221,12 @@ func Yield(kind int, arg int) {
 //go:norace
 func (s *Sched) yield(kind int, arg int) {
 	s.Steps++
+	if kind != YChan {
+		// (a retry of a channel operation is not progress: otherwise two
+		// waiting tasks would keep each other awake and starve the task
+		// they are waiting for under the priority-based policies)
+		s.progress++
+	}
 	s.log(kind, arg)
 	if s.StepCap > 0 && s.Steps > s.StepCap {
 		s.Aborted = true
@@ -247,7 +257,9 @@ func (s *Sched) pick(curOK bool) int {
 		nr = 1
 	}
 	for i := 0; i < s.n; i++ {
-		if s.tasks[i].state == 0 && !(curOK && i == s.cur) {
+		t := s.tasks[i]
+		ok := t.state == 0 || (t.state == 4 && t.stamp != s.progress)
+		if ok && !(curOK && i == s.cur) {
 			r[nr] = i
 			nr++
 		}
@@ -296,10 +308,48 @@ func (s *Sched) pick(curOK bool) int {
 }
 
 //go:norace
+func (s *Sched) resume(next int) {
+	if t := s.tasks[next]; t.state == 4 {
+		t.state = 0
+	}
+}
+
+// chanWait parks the running task until some other task has made a step; the
+// caller then retries its channel operation.  If nobody else can move, that
+// is a deadlock.
+//
+//go:norace
+func (s *Sched) chanWait() {
+	t := s.tasks[s.cur]
+	s.ChanWaits++
+	s.log(EvBlock, 1)
+	t.state = 4
+	t.stamp = s.progress
+	next := s.pick(false)
+	if next < 0 {
+		t.waitOn = nil
+		s.deadlock()
+		wait(&t.gate)
+		return
+	}
+	if next == s.cur {
+		t.state = 0
+		return
+	}
+	s.Switches++
+	s.log(EvSwitch, next)
+	s.resume(next)
+	s.cur = next
+	open(&s.tasks[next].gate)
+	wait(&t.gate)
+}
+
+//go:norace
 func (s *Sched) switchTo(next int) {
 	prev := s.tasks[s.cur]
 	s.Switches++
 	s.log(EvSwitch, next)
+	s.resume(next)
 	s.cur = next
 	open(&s.tasks[next].gate)
 	wait(&prev.gate)
@@ -331,6 +381,7 @@ func (s *Sched) block(on unsafe.Pointer) {
 	}
 	s.Switches++
 	s.log(EvSwitch, next)
+	s.resume(next)
 	s.cur = next
 	open(&s.tasks[next].gate)
 	wait(&t.gate)
@@ -363,11 +414,12 @@ func (s *Sched) deadlock() {
 func (s *Sched) finish() {
 	t := s.tasks[s.cur]
 	t.state = 2
+	s.progress++
 	s.log(EvDone, 0)
 	next := s.pick(false)
 	if next < 0 {
 		for i := 0; i < s.n; i++ {
-			if s.tasks[i].state == 1 {
+			if s.tasks[i].state == 1 || s.tasks[i].state == 4 {
 				s.deadlock()
 				return
 			}
@@ -378,6 +430,7 @@ func (s *Sched) finish() {
 	}
 	s.Switches++
 	s.log(EvSwitch, next)
+	s.resume(next)
 	s.cur = next
 	open(&s.tasks[next].gate)
 }
@@ -574,7 +627,6 @@ func (r *rlocker) Unlock() { (*RWMutex)(r).RUnlock() }
 type (
 	WaitGroup = sync.WaitGroup
 	Once      = sync.Once
-	Pool      = sync.Pool
 	Map       = sync.Map
 	Cond      = sync.Cond
 	Locker    = sync.Locker
